@@ -226,6 +226,20 @@ theorem resolve_eq_spec_model (c : Cls) (a : String) (hn : c.ids.Nodup) : resolv
     rw [hrun]
     simp [run]
 
+/-! ### vocabulary of the registry theorems -/
+
+/-- The abstract families named by property C08 (qualified names). -/
+def families : List String :=
+  ["pydrobert.speech.scales.ScalingFunction", "pydrobert.speech.filters.LinearFilterBank",
+   "pydrobert.speech.filters.WindowFunction", "pydrobert.speech.compute.FrameComputer",
+   "pydrobert.speech.pre.PreProcessor", "pydrobert.speech.post.PostProcessor"]
+
+/-- every alias of every concrete class of the family resolves, from the family, to that class -/
+def Complete (F : Cls) : Prop :=
+  ∀ c ∈ F.classes, c.concrete = true → ∀ a ∈ c.aliases, resolve F a = .ok c
+
+instance (F : Cls) : Decidable (Complete F) := by unfold Complete; infer_instance
+
 theorem hasAlias_iff (a : String) (c : Cls) : hasAlias a c = true ↔ a ∈ c.aliases := by
   simp [hasAlias]
 
